@@ -129,6 +129,42 @@ def gradient(c, kind, dom, m=2, n=2):
     c.eq('gradient_of_cuqiarray_direction', np.asarray(ga), spec, tol=1e-4)
 
 
+def field_models_2d(c, geom, layout):
+    """models between 2-D fields (range and domain geometry Continuous2D on a NON-square grid, or Image2D): the user's forward / gradient functions
+    hand back 2-D arrays in whatever memory layout numpy / scipy produced them (C order, Fortran order as scipy.linalg.solve returns, a transposed view):
+    the model output is the parameter vector of THAT field - element (i, j) at position i*ny + j (Image2D order F: j... per its order) - independent of
+    the memory layout; bounded stand-in (native)"""
+    from cuqi.geometry import Continuous2D
+    nx, ny, mx, my = 2, 3, 3, 2
+    if geom == 'Continuous2D':
+        gd = Continuous2D((np.linspace(0, 1, nx), np.linspace(0, 1, ny))); gr = Continuous2D((np.linspace(0, 1, mx), np.linspace(0, 1, my)))
+        order = 'C'
+    else:
+        order = geom[-1]; gd = Image2D((nx, ny), order=order); gr = Image2D((mx, my), order=order)
+    L = np.array([[c.real(f'L{i}{j}') for j in range(nx)] for i in range(mx)]); R = np.array([[c.real(f'R{i}{j}') for j in range(my)] for i in range(ny)])
+    lay = {'C': np.ascontiguousarray, 'F': np.asfortranarray, 'T': lambda a: np.ascontiguousarray(a.T).T}[layout]
+    fwd = lambda U: lay(L @ U @ R)                                     # (nx, ny) field -> (mx, my) field
+    adj = lambda V: lay(L.T @ V @ R.T)
+    p = np.array([c.real(f'p{i}') for i in range(nx * ny)]); d = np.array([c.real(f'd{i}') for i in range(mx * my)])
+    U = p.reshape((nx, ny), order=order); V = d.reshape((mx, my), order=order)
+    spec = (L @ U @ R).ravel(order=order); gspec = (L.T @ V @ R.T).ravel(order=order)
+    for nm, model in (('Model', Model(fwd, gr, gd, gradient=lambda direction, wrt: adj(direction))), ('LinearModel', LinearModel(fwd, adj, gr, gd))):
+        out = model.forward(p)
+        c.eq(f'{nm}:forward_is_the_parameter_vector_of_the_output_field', np.asarray(out), spec)
+        c.eq(f'{nm}:forward_of_function_values', np.asarray(model.forward(lay(U), is_par=False)), spec)
+        oa = model.forward(CUQIarray(p.copy(), is_par=True, geometry=gd))
+        c.eq(f'{nm}:forward_of_cuqiarray', np.asarray(oa), spec)
+        c.eq(f'{nm}:funvals_of_the_output_are_the_output_field', np.asarray(oa.funvals), L @ U @ R)
+        S = model.forward(Samples(np.stack([p, 2 * p], axis=-1), gd))
+        c.eq(f'{nm}:samples_column[1]', S.samples[:, 1], 2 * spec)
+        g = model.gradient(d, p)
+        c.eq(f'{nm}:gradient_is_the_parameter_vector_of_the_adjoint_field', np.asarray(g), gspec)
+        if nm == 'LinearModel':
+            c.eq('LinearModel:adjoint', np.asarray(model.adjoint(d)), gspec)
+            M = model.get_matrix(); M = M.toarray() if hasattr(M, 'toarray') else np.asarray(M)
+            c.eq('LinearModel:matrix_times_parameters', M @ p, spec)
+
+
 def range_not_identity(c, n=2):
     A = c.mat('A', 2, n)
     model = Model(lambda x: A @ x, MappedGeometry(Continuous1D(2), map=lambda v: v ** 2), n, jacobian=lambda x: A)
@@ -238,4 +274,9 @@ def jobs(tier):
     # PDE-based models (assemble / solve / observe and the gradient dispatch through the PDE's Jacobian or gradient hook): contracts live with C18
     from contracts import C18 as _c18
     J += [j for j in _c18.jobs(tier) if j.id.startswith('PDEModel')]
+    for geom in ('Continuous2D', 'Image2D:C', 'Image2D:F'):
+        for layout in ('C', 'F', 'T'):
+            J.append(Job(f'field_models_2d:geometry={geom}:memory_layout={layout}', lambda c, g=geom, l=layout: field_models_2d(c, g, l), 'B',
+                         ['cuqi.model._model:Model.forward', 'cuqi.model._model:Model.gradient', 'cuqi.model._model:LinearModel.get_matrix',
+                          'cuqi.geometry._geometry:Continuous2D.fun2par', 'cuqi.geometry._geometry:Continuous2D.par2fun', 'cuqi.geometry._geometry:Image2D.fun2par'], nnum=3))
     return J
